@@ -27,7 +27,7 @@ from ..cfg import CFG
 from ..facts import AnalysisBroken, walk
 from ..microai.interp import Interp, Obj, Vec, Box, enumerate_paths, AssertFail, Thrown, Unsupported
 from ..microai.poly import Poly, to_poly
-from ..rules.guards import path_condition, atoms, entails, show
+from ..rules.guards import path_condition, atoms, entails, show, evalf
 
 OFFER = ("and", ("atom", "(currPin.m_class_id == m_connection_pin_class_id)"),
          ("or", ("not", ("atom", "currPin.m_exclusive")), ("atom", "currPin.m_connend_users.empty()")))
@@ -61,6 +61,87 @@ def rule_pin_offer(chk, prog):
         r.count()
         (r.ok if entails(pc, OFFER) else r.bad)("getHyperedgeVertex", fn.loc(s_), "" if entails(pc, OFFER) else
                                                 "a pin vertex is chosen under %s" % show(pc)[:200])
+
+
+def rule_pin_offer_twins(chk, prog):
+    """The three places that decide which pins of a class a connector end may use must decide alike -- not just `no wider`."""
+    r = chk.rule("PIN-OFFER-AGREE", "the availability test for the pins of a class -- class matches && (!exclusive || no user yet) -- is EQUIVALENT "
+                 "(not merely implied) at its three sites: ConnEnd::assignPinVisibilityTo (which pins get visibility), "
+                 "ConnEnd::getHyperedgeVertex and Obstacle::possiblePinPoints (which positions the orthogonal search may turn towards); a site "
+                 "that is narrower than the others makes the search fail for pins the visibility graph offers", floor=3)
+
+    def loopless(f):
+        if f[0] == "atom":
+            return ("const", True) if (".end()" in f[1] or ".begin()" in f[1]) else f
+        if f[0] == "const":
+            return f
+        if f[0] == "not":
+            inner = loopless(f[1])
+            if f[1][0] == "atom" and inner == ("const", True):
+                return ("const", True)
+            return ("not", inner)
+        return (f[0], loopless(f[1]), loopless(f[2]))
+
+    def classify(pc):
+        """Rename the class atom (the wanted class is a member in ConnEnd, a parameter in Obstacle) and compare with OFFER."""
+        def ren(f):
+            if f[0] == "atom":
+                a = f[1].replace("curr.*.", "currPin.")
+                if a.startswith("(currPin.m_class_id == ") and a.endswith(")"):
+                    a = "(currPin.m_class_id == m_connection_pin_class_id)"
+                return ("atom", a)
+            if f[0] == "const":
+                return f
+            if f[0] == "not":
+                return ("not", ren(f[1]))
+            return (f[0], ren(f[1]), ren(f[2]))
+        return ren(loopless(pc))
+    sites = []
+    fn = prog.fn("Avoid::ConnEnd::assignPinVisibilityTo")
+    for n in fn.nodes():
+        if n.get("k") == "CXXNewExpr" and n.get("at") == "Avoid::EdgeInf":
+            sites.append(("assignPinVisibilityTo", fn, n))
+    fn = prog.fn("Avoid::ConnEnd::getHyperedgeVertex")
+    for lhs, node, op in writes(fn):
+        if norm(lhs) == "vertex" and "m_vertex" in norm(node["ch"][1]):
+            sites.append(("getHyperedgeVertex", fn, node))
+    fn = prog.fn("Avoid::Obstacle::possiblePinPoints")
+    for c in calls(fn):
+        if c.get("cname", "").endswith("::push_back") and "m_vertex" in norm(call_args(c)[0]):
+            sites.append(("possiblePinPoints", fn, c))
+    names = {s_[0] for s_ in sites}
+    if names != {"assignPinVisibilityTo", "getHyperedgeVertex", "possiblePinPoints"}:
+        raise AnalysisBroken("pin availability sites not all found: %s" % sorted(names))
+    for nm, f, node in sites:
+        pc = classify(path_condition(f, node, inline=False))
+        # the other conjuncts of the site's own path (is this end attached to a shape / pin at all, ...) are not part of the availability test:
+        # compare on the three availability atoms only, for every valuation of the rest
+        avail = sorted(atoms(OFFER))
+        rest = sorted(atoms(pc) - set(avail))
+        import itertools as _it
+        narrower = wider = None
+        for rv in _it.product((False, True), repeat=len(rest)):
+            env0 = dict(zip(rest, rv))
+            rows = []
+            for av in _it.product((False, True), repeat=len(avail)):
+                env = dict(env0)
+                env.update(zip(avail, av))
+                rows.append((evalf(pc, env), evalf(OFFER, env), dict(zip(avail, av))))
+            if not any(a for a, b, e in rows):
+                continue            # this valuation of the other conditions never reaches the site
+            for a, b, e in rows:
+                if b and not a:
+                    narrower = narrower or e
+                if a and not b:
+                    wider = wider or e
+        r.count()
+        inst = "%s" % nm
+        if wider:
+            r.bad(inst, f.loc(node), "a pin is used although the availability test fails (%s)" % wider)
+        elif narrower:
+            r.bad(inst, f.loc(node), "an available pin is skipped here but offered by the other sites (%s)" % narrower)
+        else:
+            r.ok(inst, f.loc(node))
 
 
 def _rename(f):
@@ -494,9 +575,29 @@ def rule_pin_directions(chk, prog):
     (r.bad if bad else r.ok)("Avoid::ShapeConnectionPin::directions", fn.where(), bad or "%d rows" % n)
 
 
+def rule_breakpoint_twins(chk, prog):
+    from ..sibling.mirror import mirror_blocks_equal
+    r = chk.rule("BREAKPOINT-TWINS", "LineSegment::insertBreakpointsBegin / insertBreakpointsFinish enter the vertices at the two ends of a horizontal "
+                 "line into the crossing vertical line's breakpoint set by mirror-image code (begin <-> finish): same position, same vertex, the "
+                 "direction flags computed for the same dimension -- a pin's permitted directions are read for the wrong axis if one end differs", floor=1)
+    fa = prog.fn("Avoid::LineSegment::insertBreakpointsBegin")
+    fb = prog.fn("Avoid::LineSegment::insertBreakpointsFinish")
+    la = [n for n in fa.nodes() if n.get("k") == "ForStmt"]
+    lb = [n for n in fb.nodes() if n.get("k") == "ForStmt"]
+    if len(la) != 1 or len(lb) != 1:
+        raise AnalysisBroken("insertBreakpointsBegin / Finish: expected one loop over the line's vertices each")
+    r.count()
+    ok, where = mirror_blocks_equal(la[0]["body"], lb[0]["body"], "begin/finish")
+    if ok:
+        r.ok("breakpoint insertion at both ends", fa.where())
+    else:
+        r.bad("breakpoint insertion at both ends", fb.loc(lb[0]), "the two ends differ: ...%s... vs ...%s..." % (where[0][-70:], where[1][-70:]))
+
+
 def run(chk):
     prog = chk.load()
     rule_pin_offer(chk, prog)
+    rule_pin_offer_twins(chk, prog)
     rule_bookkeeping(chk, prog)
     rule_temp_vis(chk, prog)
     rule_checkpoint_dirs(chk, prog)
@@ -506,3 +607,4 @@ def run(chk):
     rule_connend_queue(chk, prog)
     rule_pin_position(chk, prog)
     rule_pin_directions(chk, prog)
+    rule_breakpoint_twins(chk, prog)
